@@ -89,9 +89,8 @@ def required_guards(model):
     g[("vault_router", "CompleteLoan")] = self_guard(model)
     g[("vault_router", "NextLoan")] = EqGuard(
         "sender==source_vault", is_sender(model),
-        lambda os_: bool(os_) and all(o.kind == "param" and "source_vault" in (model.view(o.b).var_name(o.a) or "")
-                                      or (o.kind == "param" and tuple(o.proj) == ("#NextLoan", "source_vault"))
-                                      for o in os_))
+        # the request's source_vault field (resolved up to the entry point's message parameter)
+        lambda os_: bool(os_) and all(o.kind == "param" and tuple(o.proj) == ("#NextLoan", "source_vault") for o in os_))
     router_admin = HelperGuard("assert_admin(sender)", r"^terraswap_router::helpers::assert_admin$", _router_admin_arg_check)
     g[("terraswap_router", "AddSwapRoutes")] = router_admin
     g[("terraswap_router", "RemoveSwapRoutes")] = router_admin
@@ -362,9 +361,24 @@ def check_owner_transfer(ctx, model):
             for s_ in srcs:
                 n += 1
                 os_ = v.origins_of_operand(s_.operand, at=(s_.block, s_.idx)) if s_.operand else set()
-                ok = bool(os_) and all(o.kind == "param" and "MessageInfo" not in v.local_ty(o.a) and "Env" not in v.local_ty(o.a) and
-                                       (not o.proj or o.proj[-1] in ("owner", "new_owner")) for o in os_)
-                names = {(v.var_name(o.a) or "") for o in os_ if o.kind == "param"}
-                ok = ok and all(("owner" in nme) or nme in ("msg", "params", "") for nme in names)
+                # resolve parameters at the call sites in `execute` down to the request's field name
+                res = set()
+                for o in os_:
+                    if o.kind == "param" and not o.proj:
+                        got = False
+                        for (cp, cb, ck) in model.callers().get(p, []):
+                            if ck != "call":
+                                continue
+                            cv = model.view(cp)
+                            ct = cv.blocks[cb]["t"]
+                            if o.a - 1 < len(ct["args"]):
+                                res |= cv.origins_of_operand(ct["args"][o.a - 1], at=cv.at_term(cb))
+                                got = True
+                        if not got:
+                            res.add(o)
+                    else:
+                        res.add(o)
+                ok = bool(res) and all(o.kind == "param" and o.proj and o.proj[-1] in ("owner", "new_owner") for o in res)
+                os_ = res
                 ctx.ob("C16-owner-transfer", "%s|owner" % p, ok, "CONFIG.owner := %s (must be the request's owner field)" % sorted(map(repr, os_)), v.where(s_.block))
     ctx.floor("C16-owner-transfer", "owner assignments in UpdateConfig handlers", n, 7)
